@@ -217,6 +217,21 @@ theorem parser_rom_consistent (x : Cmd) (wf : Spec.WFcmd x) (rest : Bytes) :
     Rom.readCmd (encodeCmd x ++ rest) = .ok (Spec.view x, (encodeCmd x).length) :=
   ⟨cmd_roundtrip x wf rest, rom_cmd_roundtrip x wf rest⟩
 
+/-- KEK lengths: SPSDK's parser, given a KEK that is not 16, 24 or 32 bytes long (the lengths AES key unwrap accepts),
+    raises for EVERY input file — it never returns content (empty KEK: SPSDKError, other lengths: ValueError of
+    `cryptography`); the tie is the `tamper`/`images` streams' wrong-KEK trials and stream `kek_len` -/
+theorem parser_illegal_kek_len (cp : Parse.CertParser) (kek data : Bytes) (hk : Parse.kekLenOk kek = false) :
+    (∃ e, Parse.parseV21 c cp kek data = .error e) ∧ (∃ e, Parse.parseV20 c cp kek data = .error e) := by
+  have hu : ∃ e, Parse.unwrapKeys c kek data = .error e := by
+    unfold Parse.unwrapKeys
+    by_cases he : kek.isEmpty = true
+    · rw [if_pos he]; exact ⟨_, rfl⟩
+    · rw [if_neg he, hk]; exact ⟨_, rfl⟩
+  obtain ⟨e, he⟩ := hu
+  constructor
+  · refine ⟨e, ?_⟩; unfold Parse.parseV21; rw [he]
+  · refine ⟨e, ?_⟩; unfold Parse.parseV20; rw [he]
+
 /-- the header describes the file: image size, first boot tag, certificate block, key blob, header size -/
 theorem header_describes_file (h : CryptoLaws c) (cfg : Cfg) (wf : Spec.WF21 cfg) :
     (buildV21 c cfg).length = (Spec.expected21 cfg).imageBlocks * 16 ∧
@@ -399,6 +414,30 @@ theorem image_section_byte_tampered_v21 (h : CryptoLaws c) (cfg : Cfg) (wf : Spe
   have hstart : (Spec.expected21 cfg).firstBootTagBlock * 16 = start21 cfg := start21_aligned cfg wf
   exact romV21_section_byte_tampered h cfg wf i v (by omega) hi2 hv
 
+/-- the same for SB 2.0, signed (certificate section in front of the boot sections, signature behind them) and unsigned:
+    one changed byte anywhere between the first boot tag and `image_blocks * 16` is refused or exhibits an HMAC forgery -/
+theorem image_section_byte_tampered_v20 (h : CryptoLaws c) (cfg : Cfg) (signed : Bool) (wf : Spec.WF20 cfg signed)
+    (i : Nat) (v : UInt8)
+    (hi1 : (Spec.expected20 cfg signed).firstBootTagBlock * 16 ≤ i) (hi2 : i < (Spec.expected20 cfg signed).imageBlocks * 16)
+    (hv : some v ≠ (buildV20 c cfg signed)[i]?) :
+    (∃ e, Rom.romV20 c cfg.kek ((buildV20 c cfg signed).set i v) = .error e) ∨ Break c := by
+  have hmod : Spec.sectionsLen cfg.sections % 16 = 0 :=
+    (buildSections_length h cfg.dek cfg.mac cfg.nonce cfg.sections wf.2.2.2.2.2.2.2.2.2.2.1 0).2
+  have hcert : signed = true → cfg.certBlock.length % 16 = 0 := fun hs => certBlockOk_mod _ (wf.2.2.2.2.2.2.2.2.1 hs).1
+  have e1 : (Spec.expected20 cfg signed).firstBootTagBlock * 16 = 208 + (if signed then 80 + cfg.certBlock.length else 0) := by
+    show (208 + (if signed then 80 + cfg.certBlock.length else 0)) / 16 * 16 = _
+    cases signed
+    · simp
+    · have := hcert rfl; simp only [if_true]; omega
+  have e2 : (Spec.expected20 cfg signed).imageBlocks * 16
+      = 208 + (if signed then 80 + cfg.certBlock.length else 0) + Spec.sectionsLen cfg.sections := by
+    show Spec.bodyLen20 cfg signed / 16 * 16 = _
+    unfold Spec.bodyLen20
+    cases signed
+    · simp only [Bool.false_eq_true, if_false]; omega
+    · have := hcert rfl; simp only [if_true]; omega
+  exact romV20_section_byte_tampered h cfg signed wf i v (by omega) (by omega) hv
+
 /-- the same for exactly the compiled primitives the driver runs -/
 theorem exec_image_section_byte_tampered_v21 (cfg : Cfg) (wf : Spec.WF21 cfg) (i : Nat) (v : UInt8)
     (hi1 : (Spec.expected21 cfg).firstBootTagBlock * 16 ≤ i) (hi2 : i < (buildV21 Crypto.execOps cfg).length)
@@ -441,6 +480,9 @@ example : ((Parse.parsedOf21 demoCfg).sections.map (fun s => (s.uid, s.hmacCount
 example : Spec.WF21 demoCfg := by decide +kernel
 /-- hypotheses of `image_section_byte_tampered_v21` are satisfiable: byte 656 (first section's encrypted header) exists -/
 example : (Spec.expected21 demoCfg).firstBootTagBlock * 16 = 656 ∧ 656 < Spec.fileLen21 demoCfg := by decide +kernel
+example : Parse.kekLenOk (List.replicate 17 1) = false ∧ Parse.kekLenOk [] = false := by decide
+example : (Spec.expected20 demoCfg true).firstBootTagBlock * 16 = 448 ∧ 448 < (Spec.expected20 demoCfg true).imageBlocks * 16 ∧
+    (Spec.expected20 demoCfg false).firstBootTagBlock * 16 = 208 ∧ 208 < (Spec.expected20 demoCfg false).imageBlocks * 16 := by decide +kernel
 example : Spec.WF20 demoCfg true ∧ Spec.WF20 demoCfg false := by decide +kernel
 example : ∀ x ∈ demoCmds, Spec.WFcmd x := by decide
 example : (Spec.expected21 demoCfg).imageBlocks * 16 = 208 + 160 + 32 + 256 + (48 + 64 + 13 * 16) + (48 + 32 + 16) := by decide +kernel
